@@ -35,12 +35,28 @@ class Machinery(Exception):
 _TR = bytes(((b % 255) + 1) for b in range(256))
 
 
-def content(key, size, gen=0, seed=None):
+def content(key, size, gen=0, seed=None, mode="rand"):
+    """Deterministic file content.  mode "rand": bytes 1..255, unique per key (default);
+    "zeros": all zero bytes; "repeat": one 16 KiB block repeated; "sparse": random with long runs of
+    zero bytes; "same": random but identical for every key (duplicate files)."""
     if size <= 0:
         return b""
     s = SEED if seed is None else seed
+    if mode == "zeros":
+        return bytes(size)
+    if mode == "same":
+        key = "same-content"
     h = hashlib.shake_256(("%d/%s/%d" % (s, key, gen)).encode())
-    return h.digest(size).translate(_TR)
+    if mode == "repeat":
+        blk = h.digest(BLOCK).translate(_TR)
+        return (blk * (size // BLOCK + 1))[:size]
+    data = h.digest(size).translate(_TR)
+    if mode == "sparse":
+        b = bytearray(data)
+        for start in range(0, size, 3 * BLOCK):
+            b[start:start + BLOCK + 17] = bytes(min(BLOCK + 17, size - start))
+        return bytes(b)
+    return data
 
 
 def sha1(b):
